@@ -14,6 +14,7 @@ import (
 	"time"
 
 	mintertypes "github.com/chain4energy/c4e-chain/x/cfeminter/types"
+	"github.com/chain4energy/c4e-chain/x/cfevesting"
 	vestkeeper "github.com/chain4energy/c4e-chain/x/cfevesting/keeper"
 	vesttypes "github.com/chain4energy/c4e-chain/x/cfevesting/types"
 	sdk "github.com/cosmos/cosmos-sdk/types"
@@ -1099,6 +1100,19 @@ func runVestCase(ta *TestApp, seed uint64, idx int, rep *Report, profile string)
 		obs := append(res.outTerm(), e.observe(ctx)...)
 		opTerms = append(opTerms, "("+op.term+", "+zListB(obs)+")")
 		rep.Ops++
+	}
+	// ---- C12: whatever state the messages left, the vesting module's exported genesis passes its own validation
+	{
+		var verr error
+		func() {
+			defer func() {
+				if r := recover(); r != nil {
+					verr = fmt.Errorf("panic: %v", r)
+				}
+			}()
+			verr = cfevesting.ExportGenesis(ctx, app.CfevestingKeeper).Validate()
+		}()
+		rep.Eval("C12.exported_vesting_genesis_validates", verr == nil, idx, nOps, fmt.Sprintf("the vesting genesis exported after the history does not validate: %v", verr))
 	}
 	// ---- epilogue on a dropped branch (not part of the model comparison): the bank's per-denomination send switch.  With one
 	// denomination switched off, a move of OTHER, selected denominations still goes through (and leaves nothing of them locked), and a
